@@ -248,6 +248,9 @@ func c18Oracle(c c18Case) error {
 		return err
 	}
 	st := statsFor("C18")
+	if err := c18Merged(snap); err != nil {
+		return err
+	}
 	if c.L.ambiguous(base, ts) {
 		st.class("ambiguous_layout_validity_only", 1)
 		return nil
@@ -268,6 +271,43 @@ func c18Oracle(c c18Case) error {
 		if call.LocalSrcPath != t.Local || call.RelSrcPath != t.Rel || call.Location != t.Loc || call.ImportPath != t.Import {
 			return fmt.Errorf("frame %s exists locally as %s\n got  local=%q rel=%q import=%q location=%s\n want local=%q rel=%q import=%q location=%s\n roots: GOROOT=%q GOPATHs=%v gomods=%v",
 				t.Remote, t.Local, call.LocalSrcPath, call.RelSrcPath, call.ImportPath, call.Location, t.Local, t.Rel, t.Import, t.Loc, snap.RemoteGOROOT, snap.RemoteGOPATHs, snap.LocalGomods)
+		}
+	}
+	return nil
+}
+
+// c18Merged: what path guessing found out about a frame survives aggregation. Every goroutine
+// gets a twin differing in one argument value, so that every bucket is the product of a merge;
+// a bucket's frames must carry the resolution of its members' frames (they name the same file).
+func c18Merged(snap *stack.Snapshot) error {
+	twin := cloneSnapshot(snap)
+	byID := map[int]*stack.Goroutine{}
+	for _, g := range snap.Goroutines {
+		byID[g.ID] = g
+		t := cloneGoroutine(g)
+		t.ID += 100000
+		t.First = false
+		for ci := range t.Stack.Calls {
+			if a := &t.Stack.Calls[ci].Args; len(a.Values) > 0 && !a.Values[0].IsAggregate {
+				a.Values[0].Value++
+			}
+		}
+		twin.Goroutines = append(twin.Goroutines, t)
+	}
+	for _, b := range twin.Aggregate(stack.AnyValue).Buckets {
+		m := byID[b.IDs[0]]
+		if m == nil || len(b.Stack.Calls) != len(m.Stack.Calls) {
+			continue
+		}
+		for i := range b.Stack.Calls {
+			x, y := &b.Stack.Calls[i], &m.Stack.Calls[i]
+			if x.RemoteSrcPath != y.RemoteSrcPath {
+				break
+			}
+			if x.LocalSrcPath != y.LocalSrcPath || x.RelSrcPath != y.RelSrcPath || x.ImportPath != y.ImportPath || x.Location != y.Location {
+				return fmt.Errorf("bucket %v, frame %d (%s): the merged bucket shows local=%q rel=%q import=%q location=%s, its members local=%q rel=%q import=%q location=%s",
+					b.IDs, i, x.RemoteSrcPath, x.LocalSrcPath, x.RelSrcPath, x.ImportPath, x.Location, y.LocalSrcPath, y.RelSrcPath, y.ImportPath, y.Location)
+			}
 		}
 	}
 	return nil
